@@ -94,8 +94,10 @@ def size(root) -> int:
 # link audit (DESIGN 5.2)
 
 
-def audit(root, max_nodes=5000):
-    """Return a list of problem strings (empty = well formed)."""
+def audit(root, max_nodes=5000, payload=True):
+    """Return a list of problem strings (empty = well formed).  payload=False
+    checks links and arity only (a parser may legitimately produce an infinite
+    float constant for a 400-digit decimal literal)."""
     probs = []
     if root is None:
         return ["root is None"]
@@ -138,7 +140,7 @@ def audit(root, max_nodes=5000):
             v = n.value
             if isinstance(v, bool) or not isinstance(v, (int, float, np.integer, np.floating)):
                 probs.append(f"constant payload of type {type(v).__name__}")
-            elif isinstance(v, (float, np.floating)) and not math.isfinite(float(v)):
+            elif payload and isinstance(v, (float, np.floating)) and not math.isfinite(float(v)):
                 probs.append(f"constant payload not finite: {v!r}")
         elif isinstance(n, E.VariableExpression):
             if n.left is not None or n.right is not None:
